@@ -896,10 +896,25 @@ theorem readyList_nil {s : State} (h : readyList s = []) :
     s.dWoken = false ∧ s.eWoken = false ∧ ∀ a ∈ s.aws, a.woken = true → a.done = true := by
   unfold readyList at h
   simp only [List.append_eq_nil_iff] at h
-  obtain ⟨⟨h1, h2⟩, h3⟩ := h
+  obtain ⟨⟨⟨h0, h1⟩, h2⟩, h3⟩ := h
   refine ⟨?_, ?_, readyAwsFrom_nil h3⟩
   · cases hd : s.dWoken <;> simp_all
   · cases hd : s.eWoken <;> simp_all
+
+/-- an idle executor has no tick task left to poll -/
+theorem not_tickLive_of_idle {s : State} (h : readyList s = []) : ¬ tickLive s := by
+  have hw := (readyList_nil h).2.2
+  have h0 : s.tick0 = false := by
+    unfold readyList at h
+    simp only [List.append_eq_nil_iff] at h
+    cases ht : s.tick0 <;> simp_all
+  rintro (⟨_, ht⟩ | ht)
+  · simp [h0] at ht
+  · rw [List.any_eq_true] at ht
+    obtain ⟨a, ha, hp⟩ := ht
+    simp only [isTickOf, Bool.and_eq_true, decide_eq_true_eq, Bool.not_eq_true'] at hp
+    have := hw a ha hp.1.2
+    simp [hp.2] at this
 
 end Leptos.Async
 
